@@ -10,6 +10,7 @@ from __future__ import annotations
 
 import copy
 import itertools
+import math
 import random
 from fractions import Fraction
 
@@ -69,7 +70,13 @@ RULE = ('random systems: 1-8 atoms on a 1/8 grid of box-relative coordinates (so
         'independent requests. Same-object sequences: 3-9 requests to ONE input object with in-place edits of it in between '
         '(atom moved / two atoms swapped / one atom put where another was / pbc / atype / property value / box origin), the '
         'same request often repeated after the edit. Repeat probe (15% of accepted requests): the identical request again, '
-        'its result overwritten in place, a third call. distinct = distinct (system line, op line, units); non-trivial = the '
+        'its result overwritten in place, a third call. Large systems (oracle only): truncated fcc supercells in random atom '
+        'order on a dyadic grid, orthorhombic / integer-sheared box, dyadic origin, any pbc, 3 types and 3 extra properties, '
+        'two extra atoms 2^-8 apart with indices in different 65536-blocks; 70306 and 140610 atoms every run plus sizes '
+        '2^j-1, 2^j, 2^j+1 (j = 10..17); targets 0, 65535, 65536, 65537, 131071..131073, last, other 2^j+-1; each generator '
+        'selected by index (k, k-N, numpy.int64, via point) and by position (array, list, periodic image, box-relative, via '
+        'point, atol=0), interstitial on occupied / free sites, absent / ambiguous / resolved sites; whole-array bitwise '
+        'comparison against slices of the construction data. distinct = distinct (system line, op line, units); non-trivial = the '
         'insertion is accepted or refused for a reason other than the argument-combination checks')
 ASSUMPTIONS = [
     'IEEE double arithmetic of numpy/Cython is exact on the binary-grid inputs generated (scale-free test: with g the finest bit '
@@ -1840,6 +1847,413 @@ def _same_object_sequences(ctx, rng, broken):
         _run_history(ctx, desc, None, 'same-object', gen=gen, nops=rng.choice([5, 7, 9]), rng=rng, same_object=True)
 
 
+# ----------------------------------------------------------------------------------------
+# large systems: counts and thresholds (block-wise searches, packed keys, fast paths that switch on at a size)
+# ----------------------------------------------------------------------------------------
+# One synthetic crystal per size: a truncated, randomly ordered fcc supercell on a dyadic grid (lattice constant
+# 4*2^e, every coordinate a multiple of a/2: differences and the dumbbell arithmetic are exact in doubles), in an
+# orthorhombic or integer-sheared box with a dyadic origin, 3 types, a float, an int and a per-atom vector property,
+# plus two EXTRA atoms 2^-8 apart (closer than the default tolerance) at an off-lattice hole, one with a small index
+# and one with an index beyond 65536.  Every clause is decided exactly: "every other atom unchanged, in order" is a
+# bitwise comparison of whole arrays against numpy slices of the construction data (no index lists), the rows that
+# must change are computed with Fractions, refusals from the construction (which sites are occupied, by how many).
+LARGE_MAIN = [70306, 140610]                     # 26x26x26x4 + 2 (the tester's demo size), 26x26x52x4 + 2
+LARGE_EDGE = [1023, 1024, 1025, 2047, 2048, 2049, 4095, 4096, 4097, 8191, 8192, 8193, 16383, 16384, 16385, 32767, 32768,
+              32769, 65535, 65536, 65537, 65538, 131071, 131072, 131073]
+LARGE_FORMS = ('pos', 'list', 'image', 'scaled', 'point', 'negative', 'np-int', 'tight')
+FCC = ((0, 0, 0), (1, 1, 0), (1, 0, 1), (0, 1, 1))      # in units of a/2
+EXTRA_GAP = 2.0 ** -8
+
+
+def _large_spec(rng, n):
+    """plain data from which the system is rebuilt (replay)."""
+    m = -(-(n - 2) // 4)
+    nx = rng.choice([8, 13, 16, 26])
+    ny = rng.choice([8, 13, 16, 26])
+    nz = max(2, -(-m // (nx * ny)))
+    return {'n': n, 'reps': [nx, ny, nz], 'perm': rng.randrange(1 << 30), 'e': rng.choice([-2, -1, 0, 0, 0, 1, 3]),
+            'shear': [rng.choice([0, 0, 1, -2]) for _ in range(3)], 'origin': [rng.choice([0, 0, 1, -3, 10]) for _ in range(3)],
+            'pbc': [rng.random() < 0.7 for _ in range(3)]}
+
+
+def _large_build(spec):
+    """-> (system, data): data holds the construction arrays (never handed to atomman)."""
+    np = _np()
+    import atomman as am
+    n = spec['n']
+    nx, ny, nz = spec['reps']
+    a = math.ldexp(4.0, spec['e'])
+    h = a / 2
+    cells = np.stack(np.meshgrid(np.arange(nx), np.arange(ny), np.arange(nz), indexing='ij'), -1).reshape(-1, 3)
+    sites = (2 * cells[:, None, :] + np.array(FCC)[None, :, :]).reshape(-1, 3)          # integer multiples of a/2
+    order = np.random.RandomState(spec['perm']).permutation(len(sites))
+    sites = sites[order][:n - 2]
+    origin = np.array(spec['origin'], dtype=float) * (a / 4)
+    sxy, sxz, syz = spec['shear']
+    vects = np.array([[nx * a, 0.0, 0.0], [sxy * a, ny * a, 0.0], [sxz * a, syz * a, nz * a]])
+    # the two extra atoms: at the tetrahedral hole (1/4,1/4,1/4)a of cell 0 and 2^-8 beside it
+    rs = np.random.RandomState(spec['perm'] ^ 0x5bd1)
+    i1 = int(rs.randint(2, min(n, 65536) - 2)) if n > 8 else 1
+    lo = 65540 if n > 65560 else max(i1 + 2, n // 2 + 2)
+    i2 = int(rs.randint(lo, n - 2)) if n - 2 > lo else n - 2
+    while _is_edge_index(i1, n):
+        i1 += 3
+    while _is_edge_index(i2, n) or i2 == i1:
+        i2 -= 3
+    pos = np.empty((n, 3))
+    lattice = np.ones(n, dtype=bool)
+    lattice[[i1, i2]] = False
+    pos[lattice] = origin + sites * h
+    hole = origin + np.array([a / 4, a / 4, a / 4])
+    pos[i1] = hole
+    pos[i2] = hole + np.array([EXTRA_GAP, 0.0, 0.0])
+    idx = np.arange(n)
+    atype = (idx * 7 + idx // 5) % 3 + 1
+    charge = (idx % 1000) * 0.25 - 50.0
+    tag = (n - idx).astype(np.int64)
+    vel = np.stack([(idx % 17) - 8.0, (idx % 5) * 0.5, -(idx % 3) * 1.0], 1)
+    data = {'n': n, 'a': a, 'pos': pos.copy(), 'atype': atype.copy(), 'charge': charge.copy(), 'tag': tag.copy(),
+            'vel': vel.copy(), 'vects': vects.copy(), 'origin': origin.copy(), 'pbc': list(spec['pbc']), 'i1': i1, 'i2': i2,
+            'symbols': ('Al', 'Ni', 'Cu')}
+    system = am.System(atoms=am.Atoms(atype=atype, pos=pos, charge=charge, tag=tag, vel=vel),
+                       box=am.Box(vects=vects, origin=origin), pbc=list(spec['pbc']), symbols=['Al', 'Ni', 'Cu'])
+    return system, data
+
+
+def _is_edge_index(i, n):
+    return i in (0, 1, n - 1, n - 2) or any(abs(i - (1 << j)) <= 1 for j in range(1, 20))
+
+
+def _large_targets(rng, n, data, many):
+    must = [0, n - 1] + [k for k in (65535, 65536, 65537, 131071, 131072, 131073) if k < n]
+    edge = sorted({k for j in range(9, 18) for k in ((1 << j) - 1, 1 << j, (1 << j) + 1) if 1 < k < n - 1} - set(must))
+    more = rng.sample(edge, min(len(edge), 3 if many else 2)) + [rng.randrange(n), rng.choice([1, n - 2])]
+    out = []
+    for k in must + more:
+        if k not in out and k not in (data['i1'], data['i2']) and 0 <= k < n:
+            out.append(k)
+    return out
+
+
+def _large_untouched(np, system, data):
+    bad = []
+    for key in ('pos', 'atype', 'charge', 'tag', 'vel'):
+        got = system.atoms.view[key]
+        if got.shape != data[key].shape or not np.array_equal(got, data[key]):
+            bad.append(key)
+    if not np.array_equal(system.box.vects, data['vects']) or not np.array_equal(system.box.origin, data['origin']):
+        bad.append('box')
+    if list(system.pbc) != data['pbc']:
+        bad.append('pbc')
+    if system.natoms != data['n'] or 'old_id' in system.atoms_prop():
+        bad.append('atoms')
+    return bad
+
+
+def _large_expected(np, data, fn, k, kw, db=None, cart=None):
+    """expected arrays of the result of the defect on atom k (interstitial: at `cart`), from the construction data."""
+    n = data['n']
+    keys = ('pos', 'atype', 'charge', 'tag', 'vel')
+    if fn == 'interstitial':
+        body = {q: data[q] for q in keys}
+        old = np.arange(n)
+    else:
+        body = {q: np.concatenate([data[q][:k], data[q][k + 1:]]) for q in keys}
+        old = np.concatenate([np.arange(k), np.arange(k + 1, n)])
+    tail = {q: [] for q in keys}
+    told = []
+    if fn == 'interstitial':
+        tail['pos'].append(np.array(cart, dtype=float))
+        tail['atype'].append(kw.get('atype', 1))
+        for q in ('charge', 'tag'):
+            tail[q].append(kw.get(q, 0))
+        tail['vel'].append(np.array(kw.get('vel', [0.0, 0.0, 0.0])))
+        told.append(kw.get('old_id', n))
+    elif fn == 'substitutional':
+        tail['pos'].append(data['pos'][k])
+        tail['atype'].append(kw['atype'])
+        for q in ('charge', 'tag', 'vel'):
+            tail[q].append(np.asarray(kw.get(q, data[q][k])))
+        told.append(kw.get('old_id', k))
+    elif fn == 'dumbbell':
+        p = [Fraction(float(x)) for x in data['pos'][k]]
+        d = [Fraction(float(x)) for x in db]
+        tail['pos'] += [np.array([float(x - y) for x, y in zip(p, d)]), np.array([float(x + y) for x, y in zip(p, d)])]
+        tail['atype'] += [data['atype'][k], kw.get('atype', data['atype'][k])]
+        for q in ('charge', 'tag', 'vel'):
+            tail[q] += [data[q][k], np.asarray(kw.get(q, data[q][k]))]
+        told += [k, kw.get('old_id', n)]
+    exp = {}
+    for q in keys:
+        exp[q] = np.concatenate([body[q], np.array(tail[q], dtype=data[q].dtype).reshape((len(told),) + data[q].shape[1:])]) \
+            if told else body[q]
+    exp['old_id'] = np.concatenate([old, np.array(told, dtype=np.int64)]) if told else old
+    return exp
+
+
+def _large_compare(np, data, fn, exp, result, loose_tail=0):
+    """-> list of (key, message): the result against the expected arrays; `loose_tail`: the positions of that many last
+    atoms were requested through box-relative numbers (rounded): compared to 1e-12 of the cell."""
+    n = data['n']
+    want_n = len(exp['old_id'])
+    if result.natoms != want_n:
+        return [(fn + ':count', f'{n} atoms -> {result.natoms}, documented change gives {want_n}')]
+    bad = []
+    if not np.array_equal(result.box.vects, data['vects']) or not np.array_equal(result.box.origin, data['origin']) \
+            or list(result.pbc) != data['pbc']:
+        bad.append((fn + ':cell', 'the cell (vects/origin/pbc) of the result differs from the input'))
+    if tuple(result.symbols[:3]) != data['symbols']:
+        bad.append((fn + ':symbols', f'symbols {data["symbols"]} -> {result.symbols}'))
+    props = result.atoms_prop()
+    if sorted(props) != sorted(['atype', 'pos', 'charge', 'tag', 'vel', 'old_id']):
+        return bad + [(fn + ':keys', f'property keys of the result: {props}')]
+    nd = {'vacancy': 0, 'interstitial': 1, 'substitutional': 1, 'dumbbell': 2}[fn]
+    for q in ('old_id', 'atype', 'pos', 'charge', 'tag', 'vel'):
+        got = np.asarray(result.atoms.view[q])
+        if got.shape != exp[q].shape:
+            bad.append((fn + ':dtype', f'property {q} has shape {got.shape}, expected {exp[q].shape}'))
+            continue
+        if q == 'old_id' and got.dtype.kind not in 'iu':
+            bad.append((fn + ':dtype', f'old_id has dtype {got.dtype}'))
+        same = got == exp[q]
+        if q == 'pos' and loose_tail:
+            tol = 1e-12 * float(np.abs(data['vects']).max())
+            same = same.copy()
+            same[-loose_tail:] |= np.abs(got[-loose_tail:] - exp[q][-loose_tail:]) <= tol
+        if same.all():
+            continue
+        rows = np.nonzero(~same.reshape(len(same), -1).all(axis=1))[0]
+        j = int(rows[0])
+        role = 'defect' if j >= want_n - nd else 'other'
+        name = {'old_id': 'old_id', 'atype': 'atype', 'pos': 'pos'}.get(q, 'props')
+        bad.append((f'{fn}:{role}-{name}', f'{len(rows)} atom(s) differ in {q}; first: atom {j} of the result ({role}) has '
+                    f'{q} = {got[j].tolist()}, expected {exp[q][j].tolist()}'
+                    + (f' (last rows of old_id: {got[-3:].tolist()}, expected {exp[q][-3:].tolist()})' if q == 'old_id' else '')))
+    return bad
+
+
+def _large_site_args(np, data, k, form, cart=None):
+    """how the caller names the site of atom k (or the free position `cart`): -> (kwargs, description) or None."""
+    p = data['pos'][k].copy() if cart is None else np.array(cart, dtype=float)
+    if form in ('pos', 'point', 'tight'):
+        return {'pos': p}, 'its Cartesian position'
+    if form == 'list':
+        return {'pos': [float(x) for x in p]}, 'its Cartesian position (a list)'
+    if form == 'image':
+        dirs = [j for j in range(3) if data['pbc'][j]]
+        if not dirs:
+            return None
+        j = dirs[(k + len(dirs) - 1) % len(dirs)]
+        sgn = 1.0 if k % 2 else -1.0
+        return {'pos': p + sgn * data['vects'][j]}, f'its periodic image one cell along {"-+"[k % 2]}{"abc"[j]}'
+    if form == 'scaled':
+        inv = _inv([[Fraction(float(x)) for x in row] for row in data['vects']])
+        rel = _vecmat([Fraction(float(x)) - Fraction(float(o)) for x, o in zip(p, data['origin'])], inv)
+        return {'pos': np.array([float(x) for x in rel]), 'scale': True}, 'its box-relative position (scale=True)'
+    return None
+
+
+def _large_call(fn, system, via_point, kwargs):
+    """-> ('ok', result) | ('err', exception)"""
+    from atomman import defect
+    try:
+        if via_point:
+            return 'ok', defect.point(system, FN_TYPE[fn], **kwargs)
+        return 'ok', getattr(defect, fn)(system, **kwargs)
+    except Exception as e:  # noqa: an exception is an observation
+        return 'err', e
+
+
+def _large_case(ctx, np, system, data, spec, fn, k, form):
+    """one request on the large system, judged; returns nothing, reports through ctx."""
+    n, a = data['n'], data['a']
+    rep = dict(spec, op='large', fn=fn, k=int(k), form=form)
+    where = f'[{n} atoms, cell {spec["reps"]}, atom {k}' + (f' = {k - n}' if form == 'negative' else '') + ']'
+
+    def report(key, msg):
+        ctx.violate(key, f'{fn} {where}: {msg}', rep)
+    # the request
+    kw = {}
+    db = None
+    if fn == 'substitutional':
+        kw = {'atype': int(data['atype'][k]) % 3 + 1}
+        if k % 2:
+            kw['charge'] = 7.75
+    if fn == 'dumbbell':
+        db = np.array([[0.25, 0.5, 0.0], [0.0, -0.125, 0.375], [0.5, 0.5, 0.5]][k % 3]) * (a / 4)
+        if k % 2:
+            kw = {'atype': int(data['atype'][k]) % 3 + 1, 'tag': -5}
+    if fn == 'interstitial' and k % 2:
+        kw = {'atype': 2, 'charge': -1.5, 'vel': [1.0, 2.0, 3.0]}
+    args = dict(kw)
+    if db is not None:
+        args['db_vect'] = db.copy()
+    if fn == 'interstitial':
+        # occupied site (atom k sits there): refused, however the site is named; free site: accepted
+        free = data['pos'][k] + np.array([a / 2, 0.0, 0.0])          # octahedral hole next to atom k
+        for cart, occupied in ((None, True), (free, False)):
+            named = _large_site_args(np, data, k, form if form in ('pos', 'list', 'image', 'scaled', 'point') else 'pos', cart)
+            if named is None:
+                continue
+            status, out = _large_call(fn, system, form == 'point', dict(args, **named[0]))
+            ctx.stats.case(f'oracle:large:{fn}:{"occupied" if occupied else "free"}', (repr(rep),), sample=rep)
+            touched = _large_untouched(np, system, data)
+            if touched:
+                report(fn + ':input-mutated', f'the input system was modified: {touched}')
+                return
+            if occupied:
+                if status == 'ok':
+                    report(fn + ':accepts-occupied', f'an interstitial at {named[1]} of atom {k} (occupied) is accepted')
+                elif not isinstance(out, ValueError):
+                    report(fn + ':error-class', f'occupied site refused with {type(out).__name__}: {out}')
+            elif status == 'err':
+                report(fn + ':refuses-valid', f'a free site ({a / 2} beside atom {k}, nearest atom {a / 2} away) named by '
+                       f'{named[1].replace("its ", "")} is refused: {type(out).__name__}: {out}')
+            else:
+                # the new atom sits where the caller asked for it (the image position when an image was named)
+                asked = free if 'scale' in named[0] else np.array(named[0]['pos'], dtype=float)
+                exp = _large_expected(np, data, fn, k, kw, cart=asked)
+                for key, msg in _large_compare(np, data, fn, exp, out, 1 if form == 'scaled' else 0):
+                    report(key, f'free site named by {named[1].replace("its ", "")}: {msg}')
+        return
+    # the reference: selection by index
+    ctx.stats.case(f'oracle:large:{fn}:{form}', (repr(rep),), sample=rep)
+    exp = _large_expected(np, data, fn, k, kw, db=db)
+    byidx = {'negative': k - n, 'np-int': np.int64(k)}.get(form, k)
+    refkey = (fn, int(k), form if form in ('negative', 'np-int', 'point') else 'index')
+    if refkey not in data.setdefault('_ref_done', set()):
+        data['_ref_done'].add(refkey)
+        status, ref = _large_call(fn, system, form == 'point', dict(args, ptd_id=byidx))
+        touched = _large_untouched(np, system, data)
+        if touched:
+            report(fn + ':input-mutated', f'the input system was modified (selection by index): {touched}')
+            return
+        if status == 'err':
+            report(fn + ':refuses-valid', f'selection by index {byidx!r} is refused: {type(ref).__name__}: {ref}')
+            return
+        for key, msg in _large_compare(np, data, fn, exp, ref):
+            report(key, f'selected by index {byidx!r}: {msg}')
+        if any(np.shares_memory(ref.atoms.view[q], system.atoms.view[q]) for q in ('pos', 'atype', 'charge', 'tag', 'vel')):
+            report(fn + ':aliasing', 'the result shares memory with the input')
+    if form in ('negative', 'np-int'):
+        return
+    # the same site named by position
+    named = _large_site_args(np, data, k, form)
+    if named is None:
+        return
+    pargs = dict(args, **named[0])
+    if form == 'scaled' and db is not None:
+        inv = _inv([[Fraction(float(x)) for x in row] for row in data['vects']])
+        pargs['db_vect'] = np.array([float(x) for x in _vecmat([Fraction(float(x)) for x in db], inv)])
+    if form == 'tight':
+        pargs['atol'] = 0.0
+    status, out = _large_call(fn, system, form == 'point', pargs)
+    touched = _large_untouched(np, system, data)
+    if touched:
+        report(fn + ':input-mutated', f'the input system was modified (selection by position): {touched}')
+        return
+    if status == 'err':
+        report(fn + ':selection', f'selected by {named[1]}' + (' with atol=0.0' if form == 'tight' else '')
+               + f' {data["pos"][k].tolist()} the request is refused ({type(out).__name__}: {out}); by index it is accepted')
+        return
+    loose = 2 if (form == 'scaled' and fn == 'dumbbell') else 0
+    diffs = _large_compare(np, data, fn, exp, out, loose)
+    if diffs:
+        extra = ''
+        if fn != 'vacancy' and out.natoms == len(exp['old_id']):
+            moved = int(np.asarray(out.atoms.old_id)[-2 if fn == 'dumbbell' else -1])
+            if moved != k and 0 <= moved < n:
+                extra = (f'; the defect is built on atom {moved} at {data["pos"][moved].tolist()} instead of atom {k} at '
+                         f'{data["pos"][k].tolist()}')
+        report(fn + ':selection', f'selected by {named[1]} the result differs from selection by index: {diffs[0][1]}{extra}')
+
+
+def _large_refusals(ctx, np, system, data, spec):
+    """absent and ambiguous sites (the two extra atoms are 2^-8 apart, in different 65536-blocks of the atom list)."""
+    n, a = data['n'], data['a']
+    i1, i2 = data['i1'], data['i2']
+    hole = data['pos'][i1]
+    free = data['pos'][0] + np.array([a / 2, 0.0, 0.0])
+    for fn in ('vacancy', 'substitutional', 'dumbbell'):
+        base = {'substitutional': {'atype': 3}, 'dumbbell': {'db_vect': np.array([a / 8, 0.0, 0.0])}}.get(fn, {})
+        for what, pos, atol, want in (('absent', free, None, None), ('ambiguous', hole, None, None),
+                                      ('ambiguous-far', data['pos'][i2], None, None),
+                                      ('resolved', hole, 2.0 ** -10, i1), ('resolved', data['pos'][i2], 2.0 ** -10, i2),
+                                      ('resolved', hole, 0, i1)):
+            rep = dict(spec, op='large-refusal', fn=fn, what=what, atol=atol, want=want)
+            ctx.stats.case(f'oracle:large:{fn}:{what}', (repr(rep),), sample=rep)
+            kwargs = dict(base, pos=pos.copy())
+            if fn == 'substitutional' and want is not None:
+                kwargs['atype'] = int(data['atype'][want]) % 3 + 1
+            if atol is not None:
+                kwargs['atol'] = atol
+            status, out = _large_call(fn, system, False, kwargs)
+            touched = _large_untouched(np, system, data)
+            tag = f'{fn} [{n} atoms, extra atoms {i1} and {i2} are {EXTRA_GAP} apart]'
+            if touched:
+                ctx.violate(fn + ':input-mutated', f'{tag}: the input system was modified: {touched}', rep)
+                return
+            if want is None:
+                if status == 'ok':
+                    ctx.violate(fn + (':accepts-absent' if what == 'absent' else ':accepts-ambiguous'),
+                                f'{tag}: pos = {pos.tolist()} names ' + ('no atom (nearest one ' + str(a / 2) + ' away)'
+                                if what == 'absent' else f'the two atoms {i1} and {i2} (default tolerance 0.01)')
+                                + f' but is accepted (old_id tail {np.asarray(out.atoms.old_id)[-2:].tolist()})', rep)
+                elif not isinstance(out, ValueError):
+                    ctx.violate(fn + ':error-class', f'{tag}: {what} site refused with {type(out).__name__}: {out}', rep)
+                continue
+            if status == 'err':
+                ctx.violate(fn + ':refuses-valid', f'{tag}: pos = {pos.tolist()} with atol={atol!r} names atom {want} alone '
+                            f'but is refused: {type(out).__name__}: {out}', rep)
+                continue
+            kw = {'atype': kwargs['atype']} if fn == 'substitutional' else {}
+            exp = _large_expected(np, data, fn, want, kw, db=base.get('db_vect'))
+            for key, msg in _large_compare(np, data, fn, exp, out):
+                ctx.violate(fn + ':selection', f'{tag}: pos = {pos.tolist()} with atol={atol!r} names atom {want}: {msg}', rep)
+    # interstitial on the doubly occupied hole
+    rep = dict(spec, op='large-refusal', fn='interstitial', what='occupied-twice', atol=None, want=None)
+    status, out = _large_call('interstitial', system, False, {'pos': data['pos'][i2].copy()})
+    ctx.stats.case('oracle:large:interstitial:occupied-twice', (repr(rep),), sample=rep)
+    if status == 'ok':
+        ctx.violate('interstitial:accepts-occupied', f'interstitial [{n} atoms]: pos of atom {i2} (atom {i1} is {EXTRA_GAP} '
+                    f'beside it) is accepted', rep)
+
+
+def _large_system_cases(ctx, rng, spec, many, only=None):
+    np = _np()
+    system, data = _large_build(spec)
+    n = data['n']
+    if only is not None:
+        if only.get('op') == 'large-refusal':
+            _large_refusals(ctx, np, system, data, spec)
+        else:
+            _large_case(ctx, np, system, data, spec, only['fn'], only['k'], only['form'])
+        return
+    targets = _large_targets(rng, n, data, many)
+    must = set([0, n - 1, 65535, 65536, 65537, 131071, 131072, 131073])
+    rest = list(LARGE_FORMS[1:])
+    rng.shuffle(rest)
+    for j, k in enumerate(targets):
+        # 'pos' always; the other forms in rotation (every form at least once over the must-targets of a main size)
+        w = (3 if many else 2) if k in must else 1
+        forms = ['pos'] + [rest[(j * w + q) % len(rest)] for q in range(w)]
+        for fn in ('vacancy', 'substitutional', 'dumbbell', 'interstitial'):
+            for form in (forms if fn != 'interstitial' else forms[:2]):
+                if fn == 'interstitial' and form in ('negative', 'np-int', 'tight'):
+                    continue
+                _large_case(ctx, np, system, data, spec, fn, k, form)
+    _large_refusals(ctx, np, system, data, spec)
+
+
+def _large_cases(ctx, rng, broken):
+    """sizes: the two main ones every run, plus sizes at powers of two -1, +0, +1 (three per quick run, all when
+    thorough / broken)."""
+    sizes = list(LARGE_MAIN) + (list(LARGE_EDGE) if (ctx.thorough or broken) else rng.sample(LARGE_EDGE, 3))
+    for n in sizes:
+        spec = _large_spec(rng, n)
+        _large_system_cases(ctx, rng, spec, many=(n in LARGE_MAIN))
+
+
 def search(ctx, broken):
     rng = random.Random(ctx.seed * 7919 + 15)
     nsys = ctx.n(300, 4000) * (3 if broken else 1)
@@ -1852,6 +2266,7 @@ def search(ctx, broken):
     _special_cases(ctx, rng)
     _tolerance_sweep(ctx, rng, broken)
     _same_object_sequences(ctx, rng, broken)
+    _large_cases(ctx, rng, broken)
 
 
 def _tolerance_sweep(ctx, rng, broken):
@@ -1898,6 +2313,13 @@ def replay(ctx, payload):
                 print('model:', ctx.driver.ask(_op_line(op))[:300])
                 if op.get('units'):
                     ctx.driver.ask('dflt')
+    elif r.get('op') in ('large', 'large-refusal') and 'perm' in r:
+        before = len(ctx.violations)
+        spec = {q: r[q] for q in ('n', 'reps', 'perm', 'e', 'shear', 'origin', 'pbc')}
+        _large_system_cases(ctx, random.Random(0), spec, False, only=r)
+        print(f'replay: {len(ctx.violations) - before} finding(s)')
+        for f in ctx.violations[before:]:
+            print('  ', f.what)
     else:
         search(ctx, True)
 
